@@ -1,5 +1,5 @@
 """C04: decided on the L1 machine (theorem Ivy.Props.C04.monitor_accepts) + T-replay correspondence."""
-from . import l1
+from . import l1, loopgen
 PROP = "C04"
 LEANCHECK_MODULES = ["Ivy.L1.Machine", "Ivy.L1.Exec", "Ivy.Mon.C04", "Ivy.L1.ProofsC04", "Ivy.Props.C04"]
 FAMILIES = ['deadline', 'mix']
@@ -9,13 +9,18 @@ RULE = ("scenario families ['deadline', 'mix'] (see vlib/loopgen.py) rotating ov
         "replayed through the Lean machine (every library record must be predicted) and through the Lean monitor(s) ['C04']; sanitizer "
         "classes counted as violations of this property: []. non-trivial = at least one timer fired after a wait with a non-zero timeout, or the kernel-timer path engaged; distinct by hash of the log")
 
+KT_RULE = ("; plus the ENUMERATED family 'ktimer' (140 scenarios every run): a far timer pending while a descriptor wakes the loop k = 2..8 times in a "
+           "row (below/at/above the threshold at which epoll-timerfd arms its timer descriptor), then a handler adds an earlier or later timer, "
+           "unregisters or re-registers the pending one, then more wake-ups; all four methods")
+
 
 def nontrivial(log):
     return ("CB t" in log and ("ns int" in log or "ms int" in log)) or "KTIMER" in log
 
 
 def run(tier, seed, proof):
-    return l1.run_property(PROP, tier, seed, proof, FAMILIES, MONS, SANS, nontrivial, RULE)
+    return l1.run_property(PROP, tier, seed, proof, FAMILIES, MONS, SANS, nontrivial, RULE + KT_RULE,
+                           extra_cases=lambda tier, seed: loopgen.ktimer_cases(seed))
 
 
 def search(tier, seed, proof):
